@@ -234,6 +234,8 @@ where
     }
 
     if let Some(entry) = old_entry {
+      #[cfg(excsn_fibre_verif)]
+      crate::verif_sched::point("insert:before_old_cost_sub");
       if let Some(wheel) = &shard.timer_wheel {
         if let Some(handle) = &entry.ttl_timer_handle {
           wheel.cancel(handle);
@@ -250,10 +252,14 @@ where
         .fetch_sub(old_cost, Ordering::Relaxed);
     }
 
+    #[cfg(excsn_fibre_verif)]
+    crate::verif_sched::point("insert:before_event_push");
     let _ = shard
       .event_buffer_tx
       .try_send(AccessEvent::Write(key.clone(), cost));
 
+    #[cfg(excsn_fibre_verif)]
+    crate::verif_sched::point("insert:before_cost_add");
     self.shared.metrics.inserts.fetch_add(1, Ordering::Relaxed);
     self
       .shared
@@ -271,6 +277,8 @@ where
       .total_cost_added
       .fetch_add(cost, Ordering::Relaxed);
 
+    #[cfg(excsn_fibre_verif)]
+    crate::verif_sched::point("insert:before_maintenance");
     self._run_opportunistic_maintenance(&key, &shard);
   }
 
@@ -304,6 +312,8 @@ where
     }
 
     if let Some(entry) = old_entry {
+      #[cfg(excsn_fibre_verif)]
+      crate::verif_sched::point("insert:before_old_cost_sub");
       if let Some(wheel) = &shard.timer_wheel {
         if let Some(handle) = &entry.ttl_timer_handle {
           wheel.cancel(handle);
@@ -320,10 +330,14 @@ where
         .fetch_sub(old_cost, Ordering::Relaxed);
     }
 
+    #[cfg(excsn_fibre_verif)]
+    crate::verif_sched::point("insert:before_event_push");
     let _ = shard
       .event_buffer_tx
       .try_send(AccessEvent::Write(key.clone(), cost));
 
+    #[cfg(excsn_fibre_verif)]
+    crate::verif_sched::point("insert:before_cost_add");
     self.shared.metrics.inserts.fetch_add(1, Ordering::Relaxed);
     self
       .shared
@@ -341,6 +355,8 @@ where
       .total_cost_added
       .fetch_add(cost, Ordering::Relaxed);
 
+    #[cfg(excsn_fibre_verif)]
+    crate::verif_sched::point("insert:before_maintenance");
     self._run_opportunistic_maintenance(&key, &shard);
   }
 
@@ -371,6 +387,8 @@ where
       }
       // Yield control back to the Tokio runtime. This is the async equivalent
       // of `thread::yield_now()`, preventing the executor from being starved.
+      #[cfg(excsn_fibre_verif)]
+      crate::verif_sched::point("compute:retry");
       tokio::task::yield_now().await;
     }
   }
@@ -452,6 +470,8 @@ where
 
       // Yield control back to the Tokio runtime. This is the async equivalent
       // of `thread::yield_now()`, preventing the executor from being starved.
+      #[cfg(excsn_fibre_verif)]
+      crate::verif_sched::point("compute:retry");
       tokio::task::yield_now().await;
     }
   }
@@ -477,6 +497,8 @@ where
     } // `guard` (and L_shard) is released here.
 
     if let Some((found_key, entry)) = removed_entry {
+      #[cfg(excsn_fibre_verif)]
+      crate::verif_sched::point("remove:before_policy_remove");
       if let Some(wheel) = &shard.timer_wheel {
         if let Some(handle) = &entry.ttl_timer_handle {
           wheel.cancel(handle);
@@ -487,6 +509,8 @@ where
       }
 
       self.shared.get_cache_policy(key).on_remove(&found_key);
+      #[cfg(excsn_fibre_verif)]
+      crate::verif_sched::point("remove:before_cost_sub");
       self
         .shared
         .metrics
@@ -499,6 +523,8 @@ where
         .fetch_sub(entry.cost(), Ordering::Relaxed);
 
       let value = entry.value();
+      #[cfg(excsn_fibre_verif)]
+      crate::verif_sched::point("remove:before_notify");
       if let Some(sender) = &self.shared.notification_sender {
         let _ = sender.try_send((found_key, value.clone(), EvictionReason::Invalidated));
       }
@@ -942,11 +968,19 @@ where
     };
 
     for (i, shard) in self.shared.store.shards.iter().enumerate() {
+      #[cfg(excsn_fibre_verif)]
+      crate::verif_sched::point("maint:before_lock");
       let _guard = shard.maintenance_lock.lock_async().await;
       perform_shard_maintenance(shard, i, &janitor_context, COOPERATIVE_MAINTENANCE_DRAIN_LIMIT);
+      #[cfg(excsn_fibre_verif)]
+      crate::verif_sched::point("maint:before_ttl");
       Janitor::cleanup_ttl_for_shard(shard, i, &janitor_context);
+      #[cfg(excsn_fibre_verif)]
+      crate::verif_sched::point("maint:before_tti");
       Janitor::cleanup_tti_for_shard(shard, i, &janitor_context);
       Janitor::cleanup_capacity_for_shard(shard, i, &janitor_context);
+      #[cfg(excsn_fibre_verif)]
+      crate::verif_sched::point("maint:before_unlock");
     }
   }
 
